@@ -462,6 +462,27 @@ pub fn wide_ops() -> Vec<Op> {
     ]
 }
 
+pub fn nottl_stamped_ops(persistent: bool) -> Vec<Op> {
+    let a = 0u8;
+    let b = 1u8;
+    let mut v = vec![
+        ins(a, V_X),
+        Op::Cas { k: a, expect: V_X, new: V_Y, ts: 0, ttl: 1 },
+        Op::Incr { k: b, delta: 1, ts: 0, ttl: 1 },
+        ins_ttl(b, V_X, 1, 0), // refused: TTL not enabled
+        Op::Advance(0),
+        Op::Get(a),
+        Op::Range { lo: 0, hi: 3, limit: usize::MAX },
+        Op::Range { lo: 0, hi: 3, limit: 1 },
+        Op::Delete { k: a, ts: 0 },
+    ];
+    if persistent {
+        v.push(Op::Flush);
+        v.push(Op::Reopen);
+    }
+    v
+}
+
 pub fn ttl_wrap_ops(persistent: bool) -> Vec<Op> {
     let a = 0u8;
     const EDGE: u64 = u64::MAX / 1_000_000_000; // largest TTL whose nanoseconds fit
@@ -498,6 +519,10 @@ pub fn all_suites(thorough: bool) -> Vec<Suite> {
     mt.ttl = true;
     v.push(suite("mem-ttl", mt, std_tables(), ttl_ops(false), d(5, 6)));
     v.push(suite("mem-wide", mt, std_tables(), wide_ops(), d(4, 5)));
+    // a store WITHOUT TTL support holding records that carry an expiry stamp (compare-and-swap and
+    // increment stamp one regardless): such records are permanent for every call, scans included
+    v.push(suite("mem-nottl-stamped", Cfg::memory(), std_tables(), nottl_stamped_ops(false), d(5, 6)));
+    v.push(suite("disk-nottl-stamped-v3", disk(3, true, false), std_tables(), nottl_stamped_ops(true), d(4, 5)));
     // time-to-live values around the points where seconds x 10^9 leaves 64 bits (the documented
     // behaviour is saturation: such a key never expires)
     v.push(suite("mem-ttl-wrap", mt, std_tables(), ttl_wrap_ops(false), d(3, 4)));
